@@ -55,11 +55,12 @@ def prio_table(tree: ast.Module, name: str) -> List[Tuple[str, int]]:
 def read_tables(repo: Path):
     t = ast.parse((repo / "func_adl_xAOD/common/ast_to_cpp_translator.py").read_text())
     u = ast.parse((repo / "func_adl_xAOD/common/utils.py").read_text())
+    # the order of a dict literal means nothing to the code that reads it: rows sorted by key
     return {
-        "binaryOps": op_table(t, "_known_binary_operators"),
-        "unaryOps": op_table(t, "_known_unary_operators"),
-        "compareOps": op_table(t, "compare_operations"),
-        "typePriority": prio_table(u, "_type_priority"),
+        "binaryOps": sorted(op_table(t, "_known_binary_operators")),
+        "unaryOps": sorted(op_table(t, "_known_unary_operators")),
+        "compareOps": sorted(op_table(t, "compare_operations")),
+        "typePriority": sorted(prio_table(u, "_type_priority")),
     }
 
 
